@@ -16,10 +16,18 @@ import (
 type HCollator[V any] struct {
 	Name string
 	Rank func(a, b V) int
+	// Strict, when set, is what CompareValues answers: a notion of equality finer than
+	// "ranks Equal" (the statement defines a Set by the ranking alone)
+	Strict func(a, b V) bool
 }
 
 func (h *HCollator[V]) GetClass() age.CollatorClassLike[V] { return nil }
-func (h *HCollator[V]) CompareValues(a, b V) bool          { return h.Rank(a, b) == 0 }
+func (h *HCollator[V]) CompareValues(a, b V) bool {
+	if h.Strict != nil {
+		return h.Strict(a, b)
+	}
+	return h.Rank(a, b) == 0
+}
 func (h *HCollator[V]) RankValues(a, b V) age.Rank {
 	switch r := h.Rank(a, b); {
 	case r < 0:
@@ -377,7 +385,13 @@ func (r *c02run[V]) construct(rng *core.Rng, custom bool) bool {
 		switch {
 		case custom:
 			r.Log("Set.MakeWithCollator(%s)", r.rname)
-			r.real = S.MakeWithCollator(&HCollator[V]{Name: r.rname, Rank: r.rank})
+			hc := &HCollator[V]{Name: r.rname, Rank: r.rank}
+			if rng.Bool() {
+				// a collator whose CompareValues is finer than its ranking
+				hc.Strict = r.d.Same
+				r.C.Cover("set.collator-with-strict-compare")
+			}
+			r.real = S.MakeWithCollator(hc)
 		case how == 0:
 			r.Log("Set.Make()")
 			r.real = S.Make()
